@@ -1,4 +1,4 @@
--- FAMILY-PENDING: C03
+-- FAMILY: C03
 import Driver.Util
 import Driver.PlanJson
 import IQE.Engine.PlanGraph
